@@ -164,6 +164,11 @@ class ModelMixin2:
                                 nxt.append((items + (x,), s2))
                         outs = nxt
                     return [(TupleV(it), s2) for it, s2 in outs]
+                # zip() stops with its shortest argument: a sequence of known length next to one that can be longer truncates the latter
+                fixed = [len(sp.exact) for sp in specs if sp.exact is not None]
+                longer = [sp for sp in finite if sp.exact is None and (sp.hi is None or (fixed and sp.hi > min(fixed)))]
+                if fixed and longer:
+                    self.hook('zip-truncate', st, node, length=min(fixed), what=longer[0].descr)
                 if all(sp.exact is not None for sp in specs):
                     n = min(len(sp.exact) for sp in specs)
                     return IterSpec(n, n, [TupleV(tuple(sp.exact[i] for sp in specs)) for i in range(n)], None, 'zip')
